@@ -73,6 +73,13 @@ def build_harness(hooks=True, quiet=True):
 
         if hooks:
             r = cargo([], "target")
+            if r.returncode != 0 and ("undefined hidden symbol" in r.stdout or "linking with" in r.stdout):
+                # incremental artefacts of the path dependency went stale (seen after rapid successive edits of /repo):
+                # rebuild the two crates from scratch once before giving up on the hook build
+                subprocess.run(["cargo", "clean", "--offline", "--manifest-path", os.path.join(HARNESS, "Cargo.toml"),
+                                "--target-dir", os.path.join(HARNESS, "target"), "-p", "scryer-prolog", "-p", "sv-harness"],
+                               cwd=HARNESS, env=env, stdout=subprocess.PIPE, stderr=subprocess.STDOUT, text=True, timeout=600)
+                r = cargo([], "target")
             if r.returncode == 0:
                 _built[key] = (os.path.join(HARNESS, "target", "debug", "sv-harness"), False)
                 return _built[key]
